@@ -10,7 +10,7 @@ class C04(KernelProp):
     n_ops = (12, 45)
     weights = {"new": 10, "cancelget": 5, "enter": 10, "exit": 3, "add": 8, "addf": 16, "getnw": 16, "get": 22, "finish": 10,
                "getall": 6, "addtd": 0, "current": 0, "parent": 0, "spawn": 3, "state": 0, "inject": 9}
-    gen_kwargs = {"max_ctx": 6, "malformed": 0.01, "wrong_state": 0.02, "gated": 0.45, "exc_end": 0.1, "p_comp": 0.2, "p_pair": 0.7}
+    gen_kwargs = {"max_ctx": 6, "malformed": 0.01, "wrong_state": 0.02, "gated": 0.45, "exc_end": 0.1, "p_comp": 0.2, "p_pair": 0.7, "body_get": True}
     rule = ("sync / async / suspended (gated) factories with 1-3 types and failing first calls, looked up through "
             "get_resource, get_resource_nowait, inject and the shortcuts from up to 3 tasks; lookups racing with a "
             "generation in flight on the same and on other types of the factory; children created before and after a "
